@@ -4,6 +4,8 @@ import math
 import numpy as np
 from hypothesis import strategies as st
 
+from mv import hperm
+
 from mv import gen_geom, geom, mf, repl
 from mv.runner import HypPart, Violation
 
@@ -265,12 +267,12 @@ def far_strategy(draw):
                                  tightness=[1.02, 1.1, 1.5], bystanders=2))
     ppos = np.array(case["ppos"])
     n = len(ppos)
-    keep = sorted(draw(st.sets(st.integers(0, n - 1), min_size=1, max_size=n)))
+    keep = sorted(draw(st.sets(hperm.integers(0, n - 1), min_size=1, max_size=n)))
     rpos = [ppos[i].tolist() for i in keep]
     rels = [case["pels"][i] for i in keep]
     shared = {str(r): s_ for r, s_ in enumerate(keep)}
-    for _ in range(draw(st.integers(1, 3))):
-        base = ppos[draw(st.integers(0, n - 1))]
+    for _ in range(draw(hperm.integers(1, 3))):
+        base = ppos[draw(hperm.integers(0, n - 1))]
         p = base + draw(gen_geom.unit_vector()) * draw(st.sampled_from([3.0, 6.0, 10.0, 15.0, 25.0]))
         rpos.append(p.tolist())
         rels.append(draw(st.sampled_from(["F", "Cl", "I"])))
@@ -360,9 +362,9 @@ def history_strategy(draw):
     case["rcharges"] = [round(repl.R_TAG0 + 0.01 * j, 6) for j in range(len(case["rpos"]))]
     case["rgroups"] = [4] * len(case["rpos"])
     case["replace_all"] = False
-    r = [draw(st.integers(1, 2)) for _ in range(3)]
+    r = [draw(hperm.integers(1, 2)) for _ in range(3)]
     if r == [1, 1, 1]:
-        r[draw(st.integers(0, 2))] = 2
+        r[draw(hperm.integers(0, 2))] = 2
     case["repl"] = r
     return case
 
